@@ -1,5 +1,6 @@
 """C16 / C17 driver: the real Binance and Bitstamp clients against a loopback aiohttp server that records the raw
 request line, headers and body, and verifies signatures over the bytes it received, like the exchanges do."""
+import contextlib
 import enum
 import ast
 import asyncio
@@ -332,10 +333,43 @@ def bitstamp_calls(rnd):
     add(("APIClient", "create_instant_order"),
         lambda c, a3=a3: c.create_instant_order("sell", "btcusd", a3, amount_in_counter=True),
         dec={"amount": a3}, path="/api/v2/sell/instant/btcusd/")
+    # after requests that carried a True flag: amounts and prices numerically equal to one, in several spellings
+    one_a, one_p = Decimal(rnd.choice(["1", "1.0000", "1E+0"])), Decimal(rnd.choice(["1", "1.00"]))
+    add(("APIClient", "create_limit_order"),
+        lambda c, one_a=one_a, one_p=one_p: c.create_limit_order("buy", "btcusd", one_a, one_p),
+        dec={"amount": one_a, "price": one_p}, path="/api/v2/buy/btcusd/")
+    add(("APIClient", "create_market_order"), lambda c, one_a=one_a: c.create_market_order("sell", "btcusd", one_a),
+        dec={"amount": one_a}, path="/api/v2/sell/market/btcusd/")
     return calls
 
 
 # ------------------------------------------------------------------------------------------------
+@contextlib.contextmanager
+def _client_environment(variant):
+    """process-wide settings that must not change what goes on the wire: a decimal context that prints exponents in lower
+    case (display only), the library's loggers at DEBUG"""
+    import decimal
+    import logging
+    ctx = decimal.getcontext()
+    old_capitals = ctx.capitals
+    lg = logging.getLogger("basana")
+    old_level, old_prop = lg.level, lg.propagate
+    sink = logging.NullHandler()
+    try:
+        if variant & 2:
+            ctx.capitals = 0
+        if variant & 4:
+            lg.setLevel(logging.DEBUG)
+            lg.propagate = False
+            lg.addHandler(sink)
+        yield
+    finally:
+        ctx.capitals = old_capitals
+        lg.setLevel(old_level)
+        lg.propagate = old_prop
+        lg.removeHandler(sink)
+
+
 async def run_binance(rnd, with_tb=False):
     from basana.external.binance import client as bclient
     from basana.core.token_bucket import TokenBucketLimiter
@@ -343,15 +377,25 @@ async def run_binance(rnd, with_tb=False):
     results = []
     async with Loopback() as lb:
         tb = TokenBucketLimiter(1, 1.3, 1) if with_tb else None
-        api = bclient.APIClient(api_key=KEY, api_secret=SECRET, config_overrides=overrides(lb), tb=tb)
-        for c in (calls[:3] if with_tb else calls):
-            n0 = len(lb.requests)
-            err = None
-            try:
-                await c["factory"](api)
-            except Exception as e:      # noqa
-                err = repr(e)
-            results.append((c, lb.requests[n0:], err))
+        variant = rnd.randrange(8)
+        ov = overrides(lb)
+        if variant & 1:
+            # the configuration is completed after the client was built (the port of a gateway that is only known later):
+            # what counts is the configuration at the time of the request
+            late, ov = ov, {"api": {"http": {"base_url": "http://localhost:9/"}}}
+        api = bclient.APIClient(api_key=KEY, api_secret=SECRET, config_overrides=ov, tb=tb)
+        if variant & 1:
+            ov.clear()
+            ov.update(late)
+        with _client_environment(variant):
+            for c in (calls[:3] if with_tb else calls):
+                n0 = len(lb.requests)
+                err = None
+                try:
+                    await c["factory"](api)
+                except Exception as e:      # noqa
+                    err = repr(e)
+                results.append((c, lb.requests[n0:], err))
     return results
 
 
@@ -362,15 +406,25 @@ async def run_bitstamp(rnd, with_tb=False):
     results = []
     async with Loopback() as lb:
         tb = TokenBucketLimiter(1, 1.3, 1) if with_tb else None
-        api = sclient.APIClient(api_key=KEY, api_secret=SECRET, config_overrides=overrides(lb), tb=tb)
-        for c in (calls[:3] if with_tb else calls):
-            n0 = len(lb.requests)
-            err = None
-            try:
-                await c["factory"](api)
-            except Exception as e:      # noqa
-                err = repr(e)
-            results.append((c, lb.requests[n0:], err))
+        variant = rnd.randrange(8)
+        ov = overrides(lb)
+        if variant & 1:
+            # the configuration is completed after the client was built (the port of a gateway that is only known later):
+            # what counts is the configuration at the time of the request
+            late, ov = ov, {"api": {"http": {"base_url": "http://localhost:9/"}}}
+        api = sclient.APIClient(api_key=KEY, api_secret=SECRET, config_overrides=ov, tb=tb)
+        if variant & 1:
+            ov.clear()
+            ov.update(late)
+        with _client_environment(variant):
+            for c in (calls[:3] if with_tb else calls):
+                n0 = len(lb.requests)
+                err = None
+                try:
+                    await c["factory"](api)
+                except Exception as e:      # noqa
+                    err = repr(e)
+                results.append((c, lb.requests[n0:], err))
     return results
 
 
